@@ -524,7 +524,7 @@ func (t *Task) load(
 			continue
 		}
 		eg.Go(func() error {
-			ctx = wctx.WithNumLimit(ctx, m, n)
+			ctx := wctx.WithNumLimit(ctx, m, n)
 			b, err := t.src.Get(ctx, url, &t.filter, m, n)
 			if err != nil {
 				slog.ErrorContext(ctx, "loading blocks", "error", err)
@@ -573,7 +573,7 @@ func (t *Task) insert(
 			n = len(blocks)
 		}
 		eg.Go(func() error {
-			ctx = wctx.WithNumLimit(ctx, uint64(i), uint64(n))
+			ctx := wctx.WithNumLimit(ctx, uint64(i), uint64(n))
 			nr, err := t.dests[i].Insert(ctx, &pgmut, pg, blocks[i:n])
 			if err != nil {
 				return fmt.Errorf("inserting blocks: %w", err)
